@@ -1,7 +1,8 @@
 (* Property C17 -- Retries follow the documented policy and the attempt budget.
    This file contains only statements, each closed by [exact]. *)
 From Coq Require Import ZArith List Bool.
-From Verif Require Import Base.Wrap Gen.GenConsts Gen.GenRetry Spec.RetryTable Model.Retry Proofs.RetryP.
+From Verif Require Import Base.Wrap Gen.GenConsts Gen.GenRetry Spec.RetryTable Model.Retry Proofs.RetryP
+  Spec.PeerSelect Model.PeerHeap Model.PeerList Proofs.PeerListP Proofs.RetryAvoidP.
 Import ListNotations.
 Local Open Scope Z_scope.
 
@@ -48,6 +49,17 @@ Theorem C17_seen : forall o f,
   end.
 Proof. exact run_seen. Qed.
 Print Assumptions C17_seen.
+
+(* Sub-channel calls avoid the peers already tried while untried ones exist: after any
+   history of the peer list, Get with the request's selected set [prev] returns a peer whose
+   host:port is untried if any member's is, and whose host is untried as well if any member
+   has both untried (the selected set holds host:ports and hosts, C17_seen). *)
+Theorem C17_avoid : forall ops l prev d l' p n,
+  lrun pl_empty ops = Some l -> pl_get l prev d = Some (l', SelOk p, n) ->
+  ((exists q, In q (pl_keys l) /\ tier2 prev q = true) -> tier2 prev p = true) /\
+  ((exists q, In q (pl_keys l) /\ tier1 prev q = true) -> tier1 prev p = true).
+Proof. exact get_avoids_tried. Qed.
+Print Assumptions C17_avoid.
 
 (* Non-vacuity: a concrete run (busy, busy, success under the default policy). *)
 Example C17_example :
